@@ -152,6 +152,7 @@ func lastFenceInListItem(cfg gen.Config, src []byte) bool {
 	}
 	return false
 }
+
 var reCodeTail = regexp.MustCompile(`[ \t\n]*</code></pre>`)
 
 func classifyEOL(c *kit.Case) string {
